@@ -124,7 +124,7 @@ def compare(name, obj, model, site, feats, out):
 
 MUTATORS = {"append", "extend", "insert", "pop", "del", "set", "reverse", "clear"}
 NEGATIVE = {"append_other", "append_multi", "insert_other", "insert_multi", "set_other", "set_multi",
-            "extend_other", "append_array"}
+            "extend_other", "append_array", "ctor_list_other", "ctor_list_other_first"}
 
 
 LOOSE_RUN = [False]
@@ -168,6 +168,12 @@ def check_case(case):
     if not compare(name, obj, model, "start:" + kind, feats, out):
         return out
 
+    shadows = []          # (object, frozen expected values): copies, slices and indexed results are independent lists
+
+    def shadow(x, vals):
+        shadows.append((x, [np.array(v, copy=True) for v in vals]))
+        del shadows[:-4]
+
     for step, op in enumerate(case["ops"]):
         o = op[0]
         feats = {"cls": name, "op": o, "len": len(model), "step": step}
@@ -195,6 +201,7 @@ def check_case(case):
                 if compare(name, r, [want], site, feats, out):
                     if not same(name, np.asarray(r.A), want):
                         out.append(V(site + "/A", ".A of indexed element differs", **feats))
+                    shadow(r, [want])
         elif o == "slice":
             sl = slice(op[1], op[2], op[3])
             want = model[sl]
@@ -207,7 +214,8 @@ def check_case(case):
                 out.append(V(site + "/raised", "[%s:%s:%s] of length %d raised %r; list gives %d elements" % (
                     op[1], op[2], op[3], len(model), e, len(want)), **feats))
             else:
-                compare(name, r, want, site, feats, out)
+                if compare(name, r, want, site, feats, out):
+                    shadow(r, want)
         elif o == "iter":
             try:
                 items = [x for x in obj]
@@ -278,7 +286,9 @@ def check_case(case):
             if len(model) > 0:
                 try:
                     parts = [obj[i] for i in range(len(model))] if LOOSE_RUN[0] else [make(name, [m]) for m in model]
+                    old = obj
                     obj = cls(parts)
+                    shadow(old, model)
                 except Exception as e:  # noqa
                     out.append(V(site + "/raised", "construction from a list of %d objects raised %r" % (len(model), e), **feats))
         elif o == "copy":
@@ -288,6 +298,7 @@ def check_case(case):
                 except Exception as e:  # noqa
                     out.append(V(site + "/raised", "copy construction raised %r" % e, **feats))
                 else:
+                    shadow(obj, model)       # the source of a copy keeps its own list
                     obj = obj2
         elif o in NEGATIVE:
             other = OTHER[name]
@@ -308,6 +319,10 @@ def check_case(case):
                 f = lambda: obj.__setitem__(_inrange(op[1], len(model)), make(name, [elem(name, 7), elem(name, 8)]))
             elif o == "extend_other":
                 f = lambda: obj.extend(make(other, [elem(other, 7), elem(other, 8)]))
+            elif o == "ctor_list_other":
+                f = lambda: cls([make(name, [elem(name, 7)]), make(other, [elem(other, 8)])])
+            elif o == "ctor_list_other_first":
+                f = lambda: cls([make(other, [elem(other, 8)]), make(name, [elem(name, 7)])])
             try:
                 f()
             except Exception:  # noqa  any exception is a rejection
@@ -318,6 +333,11 @@ def check_case(case):
             raise ValueError("unknown op %r" % (op,))
         if not compare(name, obj, model, site + "/after", feats, out):
             return out
+        for sh_obj, sh_vals in shadows:
+            if sh_obj is obj:
+                continue
+            if not compare(name, sh_obj, sh_vals, site + "/aliased_result", feats, out):
+                return out
         if out and len(out) > 8:
             return out
     return out
@@ -418,7 +438,7 @@ def op_strategy():
         st.just(["clear"]),
         st.just(["ctor_list"]),
         st.just(["copy"]),
-        st.tuples(st.sampled_from(["append_other", "append_multi", "extend_other", "append_array"])).map(list),
+        st.tuples(st.sampled_from(["append_other", "append_multi", "extend_other", "append_array", "ctor_list_other", "ctor_list_other_first"])).map(list),
         st.tuples(st.sampled_from(["insert_other", "insert_multi", "set_other", "set_multi"]), IDX).map(list),
     )
 
@@ -464,7 +484,7 @@ def gen_indices(tier):
 ALPHABET = [["get", -1], ["get", 0], ["slice", 1, None, None], ["slice", None, -1, None], ["slice", None, None, -1],
             ["append"], ["extend", 2], ["extend", 1], ["insert", 0], ["insert", -1], ["pop", None], ["pop", 0],
             ["del", 0], ["del", -1], ["set", 0], ["set", -1], ["reverse"], ["clear"], ["ctor_list"],
-            ["append_other"], ["append_multi"]]
+            ["append_other"], ["append_multi"], ["copy"], ["ctor_list_other"]]
 
 
 def gen_sequences(tier):
